@@ -164,13 +164,13 @@ impl Slot {
         self.version = version;
     }
 
-    /// Releases a slot and increments its version, invalidating all handles.
-    /// Returns an `EcsError::VersionOverflow` if the version increment overflows.
+    /// Releases a slot and sets its (incremented) version, invalidating all handles.
+    /// The caller computes `next_version` up front, since the increment can panic.
     #[inline(always)]
-    pub(crate) fn release(&mut self, index_next_free: SlotIndex) {
+    pub(crate) fn release(&mut self, index_next_free: SlotIndex, next_version: SlotVersion) {
         debug_assert!(self.is_free() == false);
         self.index = index_next_free;
-        self.version = self.version.next();
+        self.version = next_version;
     }
 }
 
